@@ -340,16 +340,23 @@ impl WithT for Run<'_> {
                     let unpopped = dev.with(|d| d.h.unpopped);
                     world::with(|w| w.dev.isr = (*isr & 3) as u32);
                     let r = g!(what, con.ack_interrupt());
-                    let want = isr & 1 != 0 && unpopped;
-                    if r != Ok(want) {
+                    // documented: "returns true if new data has been received". With the queue
+                    // interrupt pending and a completed buffer waiting it must say so; it may never
+                    // claim data that is not there; whether it also looks at the ring when the
+                    // interrupt bit is clear is the implementation's choice.
+                    let must = isr & 1 != 0 && unpopped;
+                    let ok = match r {
+                        Ok(true) => unpopped,
+                        Ok(false) => !must,
+                        Err(_) => false,
+                    };
+                    if !ok {
                         return Err(format!("{}: returned {:?}; queue interrupt pending: {}, completed receive buffer waiting: {}", what, r, isr & 1 != 0, unpopped));
                     }
-                    if want {
+                    if r == Ok(true) {
                         dev.with(|d| d.h.unpopped = false);
                     }
-                    if isr & 1 != 0 {
-                        sync(&mut pending, &mut synced);
-                    }
+                    sync(&mut pending, &mut synced);
                     sig.add(6).add(*isr as u64 & 3);
                 }
                 KOp::Send(b) => {
@@ -455,12 +462,18 @@ impl WithT for Run<'_> {
                 return Err(format!("{}: [{}] {}", what, tag, m));
             }
             let new_posts: Vec<u64> = dev.with(|d| d.h.postings[postings_before..].to_vec());
+            // A buffer posted during this call is judged when the call returns: everything the
+            // device had delivered before the posting must have been handed to the caller by then
+            // (a call may drain the buffer and re-post it at once, or leave that to the next call).
+            // Re-posting before the bytes are copied out is caught by the stream comparison: posted
+            // buffers are overwritten with the ledger's fill byte.
+            let _ = (consumed_before, extra_before_post);
             for p in new_posts {
-                if p > consumed_before + extra_before_post {
+                if p > consumed {
                     return Err(format!(
                         "{}: a receive buffer was re-posted while {} received bytes had not been consumed yet",
                         what,
-                        p - (consumed_before + extra_before_post)
+                        p - consumed
                     ));
                 }
             }
